@@ -1,3 +1,9 @@
 //! vp-core: reference models and one check per property (C01..C17).
 pub use vp_base::{adapt, obj, tape, toy};
+pub mod checks;
+pub mod common;
+pub mod engine;
+pub mod model;
 pub mod registry;
+pub mod selfcheck;
+pub use vp_base::ZEROIZE;
